@@ -146,7 +146,7 @@ def replay_of(h, upto):
             "impl_observation": (h["ops"][upto][1].ident if h["ops"][upto][1] else None)}
 
 
-def run(a, prop, sections, oracle, what, compare_results=("TX", "EB", "INIT", "BB", "AW", "BU", "CM")):
+def run(a, prop, sections, oracle, what, compare_results=("TX", "EB", "INIT", "BB", "AW", "BU", "CM"), extra=None):
     res = c.build(["app"])
     v = c.Verdict(prop, a.tier, a.seed)
     c.check_build(v, res, prop)
@@ -205,6 +205,8 @@ def run(a, prop, sections, oracle, what, compare_results=("TX", "EB", "INIT", "B
                 break
             if io.abort:
                 break
+    if extra is not None:
+        extra(v, out, hists, cov)
     stats = json.load(open(os.path.join(out, "app.stats.json")))
     cov.update({
         "evaluations": len(hists), "distinct_nontrivial": len(distinct),
